@@ -245,5 +245,89 @@ proof fn lemma_nested_reach(c: Cfg, s: Enc, d: Seq<nat>, cum: nat, p: nat, prec:
     requires cfg_ok(c, prec), enc_inv(c, s), entry_ok(cum, p, prec), words_ok(c, d), contains(c, enc_step(c, s, cum, p, prec), d),
     ensures false
 {}
+
+// =====================================================================================
+// C07: random access.  A decoder placed by `seek` at the encoder's snapshot (n words emitted or
+// held back, interval (l, r)) over the FINISHED data d is coupled to the encoder at that
+// snapshot; lemma_message_roundtrip then yields every later symbol.
+// =====================================================================================
+//@INCLUDE frag_range_seek.rs
+
+proof fn lemma_win_bound(c: Cfg, s: Seq<nat>, m: nat)
+    requires words_ok(c, s)
+    ensures win(c, s, m) < pow2(c.wb * m)
+    decreases m
+{
+    if m == 0 { lemma2_to64(); assert(c.wb * 0 == 0); }
+    else {
+        lemma_win_bound(c, s, (m - 1) as nat);
+        let k = (m - 1) as nat;
+        let x: nat = if k < s.len() { s[k as int] } else { 0 };
+        lemma_pow2_pos(c.wb);
+        assert(x < pow2(c.wb));
+        assert(c.wb * m == c.wb * k + c.wb) by (nonlinear_arith) requires m == k + 1;
+        lemma_pow2_adds(c.wb * k, c.wb);
+        // win' * W + x <= (2^(wb k) - 1) * W + W - 1 < 2^(wb k) * W
+        assert(win(c, s, k) * pow2(c.wb) + x < pow2(c.wb * k) * pow2(c.wb)) by (nonlinear_arith)
+            requires win(c, s, k) < pow2(c.wb * k), x < pow2(c.wb);
+    }
+}
+
+proof fn lemma_pv_split(c: Cfg, d: Seq<nat>, n: nat, k: nat)
+    requires n <= d.len()
+    ensures pv(c, d, n + k) == pv(c, d, n) * pow2(c.wb * k) + win(c, d.subrange(n as int, d.len() as int), k)
+    decreases k
+{
+    let t = d.subrange(n as int, d.len() as int);
+    if k == 0 { lemma2_to64(); assert(c.wb * 0 == 0); assert(pv(c, d, n) * 1 == pv(c, d, n)); }
+    else {
+        let j = (k - 1) as nat;
+        lemma_pv_split(c, d, n, j);
+        assert(c.wb * k == c.wb * j + c.wb) by (nonlinear_arith) requires k == j + 1;
+        lemma_pow2_adds(c.wb * j, c.wb);
+        let xd: nat = if n + j < d.len() { d[(n + j) as int] } else { 0 };
+        let xt: nat = if j < t.len() { t[j as int] } else { 0 };
+        assert(xd == xt);
+        assert((n + k - 1) as nat == n + j);
+        assert(pv(c, d, n + k) == pv(c, d, n + j) * pow2(c.wb) + xd);
+        assert(win(c, t, k) == win(c, t, j) * pow2(c.wb) + xt);
+        assert((pv(c, d, n) * pow2(c.wb * j) + win(c, t, j)) * pow2(c.wb) + xd
+               == pv(c, d, n) * (pow2(c.wb * j) * pow2(c.wb)) + (win(c, t, j) * pow2(c.wb) + xd)) by (nonlinear_arith);
+    }
+}
+
+/// the decoder produced by seek((n, (lower, range))) over the finished data is coupled to the
+/// encoder snapshot with interval (l, r) at n words, whatever lies before position n
+pub proof fn thm_seek_coupled(c: Cfg, s: Enc, d: Seq<nat>)
+    requires c.wb >= 1, c.sb >= c.wb, c.sb % c.wb == 0, words_ok(c, d), s.n <= d.len()
+    ensures coupled(c, s, sought(c, s.l % pow2(c.sb), s.r, s.n, d), d)
+{
+    let t = d.subrange(s.n as int, d.len() as int);
+    lemma_pv_split(c, d, s.n, nwin(c));
+    assert(words_ok(c, t));
+    lemma_win_bound(c, t, nwin(c));
+    lemma_fundamental_div_mod(c.sb as int, c.wb as int);
+    assert(c.wb * nwin(c) == c.sb);
+    let m = pow2(c.sb);
+    lemma_pow2_pos(c.sb);
+    lemma_mod_multiples_vanish(pv(c, d, s.n) as int, win(c, t, nwin(c)) as int, m as int);
+    lemma_small_mod(win(c, t, nwin(c)), m);
+    lemma_mul_is_commutative(pv(c, d, s.n) as int, m as int);
+}
+
+/// C07 (queue coder), any number of symbols after the snapshot: every later quantile lies in
+/// the interval of the symbol encoded there, regardless of where the decoder was before
+pub proof fn thm_seek_resumes(c: Cfg, s: Enc, es: Seq<E>, d: Seq<nat>)
+    requires c.wb >= 1, c.sb >= c.wb, c.sb % c.wb == 0, enc_inv(c, s), all_ok(c, es), words_ok(c, d), s.n <= d.len(),
+             contains(c, enc_run(c, s, es), d)
+    ensures quantiles_ok(c, s, sought(c, s.l % pow2(c.sb), s.r, s.n, d), es, d)
+{
+    thm_seek_coupled(c, s, d);
+    lemma_message_roundtrip(c, s, sought(c, s.l % pow2(c.sb), s.r, s.n, d), es, d);
+}
+proof fn thm_seek_coupled_reach(c: Cfg, s: Enc, d: Seq<nat>)
+    requires c.wb >= 1, c.sb >= c.wb, c.sb % c.wb == 0, words_ok(c, d), s.n <= d.len()
+    ensures false
+{}
 } // verus!
 fn main() {}
